@@ -88,6 +88,21 @@ def _eye(ip, n, *a, **kw):
     return ip.uf("eye", ip.to_U(n), *[ip.to_U(x) for x in a], *[ip.to_U(kw[k]) for k in sorted(kw)])
 
 
+@model("jax.numpy.nan_to_num", "numpy.nan_to_num")
+def _nan_to_num(ip, x, *a, **kw):
+    """the identity on finite values; NaN / +-inf are replaced. A-REAL: a real-sorted value is finite, so this is the identity there (what the function does to
+    non-finite values is visible to the bounded stand-ins only); binary32 values and opaque arrays get an uninterpreted result that equals the input when it is finite"""
+    if is_fp(x):
+        r = z3.Const(f"nan_to_num_{ip.ctx.fresh_id() if hasattr(ip.ctx, 'fresh_id') else id(x)}", x.sort())
+        ip.ctx.assume(z3.Implies(z3.And(z3.Not(z3.fpIsNaN(x)), z3.Not(z3.fpIsInf(x))), r == x))
+        return r
+    if is_z3(x) and x.sort() == U:
+        r = ip.uf("nan_to_num", x, *[ip.to_U(v) for v in a], *[ip.to_U(kw[k]) for k in sorted(kw)])
+        ip.ctx.assume(z3.Implies(z3.Function("all_entries_finite", U, z3.BoolSort())(x), r == x))
+        return r
+    return x
+
+
 def _signed_inf(name, negative):
     @model(f"jax.numpy.{name}", f"numpy.{name}")
     def _m(ip, x):
